@@ -1,6 +1,7 @@
 package main
 
 import (
+	"sync"
 	"strings"
 	"os"
 	"strconv"
@@ -623,6 +624,46 @@ func (r *Run) netbootMsg(t byte) (dhcpv6.DHCPv6, []byte) {
 
 // sourceStrings: the string literals of the non-test Go files of the given package directories (a fuzzing
 // dictionary taken from the code under test on every run)
+// sourceInts: the distinct integer literals (below 2^32) in the codec packages' own source, read from the tree under
+// test: a dictionary for the numeric generators.
+var srcInts []uint64
+var srcIntsOnce sync.Once
+
+func sourceInts() []uint64 {
+	srcIntsOnce.Do(func() {
+		repo := os.Getenv("VERIF_REPO")
+		if repo == "" {
+			return
+		}
+		seen := map[uint64]bool{}
+		fset := token.NewFileSet()
+		for _, d := range []string{"dhcpv4", "dhcpv6", "iana", "rfc1035label", "dhcpv4/nclient4", "dhcpv6/nclient6"} {
+			files, _ := filepath.Glob(filepath.Join(repo, d, "*.go"))
+			sort.Strings(files)
+			for _, f := range files {
+				if strings.HasSuffix(f, "_test.go") {
+					continue
+				}
+				af, err := parser.ParseFile(fset, f, nil, 0)
+				if err != nil {
+					continue
+				}
+				ast.Inspect(af, func(n ast.Node) bool {
+					if bl, ok := n.(*ast.BasicLit); ok && bl.Kind == token.INT {
+						if v, err := strconv.ParseUint(bl.Value, 0, 64); err == nil && v < 1<<32 && !seen[v] {
+							seen[v] = true
+							srcInts = append(srcInts, v)
+						}
+					}
+					return true
+				})
+			}
+		}
+		sort.Slice(srcInts, func(i, j int) bool { return srcInts[i] < srcInts[j] })
+	})
+	return srcInts
+}
+
 func sourceStrings(repo string, dirs ...string) []string {
 	var out []string
 	if repo == "" {
